@@ -91,3 +91,34 @@ Example C07_ex_time_2400 :
   render_time (TS TFracX false 7 [0]) 24 0 0 0 ++ render_off (OHH true 3)
     = map Z.of_nat [50;52;58;48;48;58;48;48;46;48;48;48;48;48;48;48;45;48;51]%nat.   (* '24:00:00.0000000-03' *)
 Proof. vm_compute. repeat split; try reflexivity. discriminate. Qed.
+
+(* ------------------------------------------------------------------------------------------------
+   Model <-> source: coq/gen/IsoGen.v is regenerated from isoparser.py by harness/gen_iso.py on every
+   run; the translated functions are the hand model, so the inverse laws hold of the translated source. *)
+From V Require Import iso.IsoGenLib gen.IsoGen iso.IsoGenThm iso.IsoGenCor.
+
+Theorem C07_gen_isoparse : forall sep s, gen_isoparse (sep_bytes sep) s = isoparse sep s.
+Proof. exact gen_isoparse_eq. Qed.
+Print Assumptions C07_gen_isoparse.
+
+Theorem C07_gen_entry_points : forall s z,
+  gen_parse_isodate s = parse_isodate s /\ gen_parse_isotime s = parse_isotime s /\
+  gen_parse_tzstr s z = parse_tzstr s z.
+Proof. exact (fun s z => conj (gen_parse_isodate_eq s) (conj (gen_parse_isotime_eq s) (gen_parse_tzstr_eq s z))). Qed.
+Print Assumptions C07_gen_entry_points.
+
+Theorem C07_gen_calculate_weekdate : forall y w d, gen__calculate_weekdate y w d = calculate_weekdate y w d.
+Proof. exact gen_calculate_weekdate_eq. Qed.
+Print Assumptions C07_gen_calculate_weekdate.
+
+Theorem C07_gen_isoparse_render : forall f sep o dt,
+  wf_fmt f sep o = true -> valid_dt dt = true ->
+  gen_isoparse (sep_bytes sep) (render_iso f dt o) = Ok (expected f dt o).
+Proof. exact gen_isoparse_render. Qed.
+Print Assumptions C07_gen_isoparse_render.
+
+Theorem C07_gen_isoparse_2400 : forall f sep o y m d,
+  wf_fmt_2400 f sep o = true -> valid_ymd y m d = true ->
+  gen_isoparse (sep_bytes sep) (render_iso_2400 f (y, m, d) o) = lift (expected_2400 (y, m, d) o).
+Proof. exact gen_isoparse_2400. Qed.
+Print Assumptions C07_gen_isoparse_2400.
